@@ -9,6 +9,8 @@ TRUSTED = [
     "FetchSearchResult and seq.MergeQPRs (tied to /repo by the correspondence run, not verified code)",
     "Go harness harness/cmd/hC19 (generators, canonical rendering of QPRs, classification of file contents) and the "
     "shared crash-state builder harness/internal/crashfs (strace log -> directory states) + storectl (child processes)",
+    "proxy level: scripted StoreApiClients (answers are real store-handler responses, protobuf round trip included); "
+    "QPR.Aggregate of the proxy answer is not compared (C06)",
     "per-fraction search results, JSON+zstd codec of .qpr/.info files, query re-parsing: NOT modelled; exercised through the "
     "real code on every case (a .qpr/.info file counts as complete only if it decodes to exactly the expected value)",
 ]
@@ -26,7 +28,11 @@ RULE = ("worlds = corpus in 0..4 real fractions (sealed/active, some IDs stored 
         "a write cut short, power loss, second crashes inside the resumed run, and restarts before which new matching documents "
         "are ingested into a new (optionally sealed) fraction. non-trivial = at least 2 fractions, "
         "histogram or aggregation requested, and (for crash cases) the request published but not done at the crash; "
-        "distinct by input")
+        "proxy class: the real "
+        "search.Ingestor over 1-3 shards x replicas of scripted clients; StartAsyncSearch's request goes to the real store handler of "
+        "every shard, FetchAsyncSearchResult gets REAL store-handler answers taken at every progress of each shard (unknown, i of n "
+        "partial results persisted and not resumed, resumed, done) in every combination (sampled in quick); non-trivial there = at least "
+        "2 answering shards and one still running; distinct by input")
 
 
 def harness_args(tier, seed, outdir):
